@@ -499,6 +499,7 @@ EXTRA_DECLS = [
     ("designated-nested", "struct S ds1[3] = { [1].m = 2, [2] = { .n = 3 }, [0] = {1, 2} };"),
     ("array-designator-enum", "int ad1[4] = { [K1] = 2, [K2] = 3 };"),
     ("string-init", "char st1[] = \"ab\" \"cd\"; const char *st2 = \"x\\ty\";"),
+    ("string-concat-after-hex-escape", "char he1[] = \"\\x1\" \"2\"; char he2[] = \"\\1\" \"2\"; char he3[] = \"a\\x41\" \"bc\";"),
     ("fn-ptr-array", "int (*fpa1[2])(int) = { g, g };"),
     ("fn-returning-ptr-to-array", "int (*frp1(int x))[4] { return &v; }"),
     ("thread-local", "_Thread_local int tl1; static _Thread_local int tl2 = 2;"),
